@@ -664,12 +664,10 @@ private:
   class join_op : public binary_op_t {
     virtual std::pair<bool, boost::optional<Value>>
     apply(const Key &/*key*/, const Value &x, const Value &y) override {
+      // A missing key means bottom here (not top as in
+      // separate_domain), so a top value must be kept.
       Value z = x.operator|(y);
-      if (z.is_top()) {
-        return {false, boost::optional<Value>()};
-      } else {
-        return {false, boost::optional<Value>(z)};
-      }
+      return {false, boost::optional<Value>(z)};
     }
     virtual bool default_is_absorbing() override { return false; }
   }; // class join_op
